@@ -421,7 +421,19 @@ func registerSDK(e *Engine) {
 	in["github.com/cosmos/cosmos-sdk/store/types.PrefixEndBytes"] = func(p *Path, a []Value) Value { return p.prefixEndBytes(a[0]) }
 	in["github.com/cosmos/cosmos-sdk/types.PrefixEndBytes"] = func(p *Path, a []Value) Value { return p.prefixEndBytes(a[0]) }
 	in["github.com/cosmos/gogoproto/proto.EnumName"] = func(p *Path, a []Value) Value {
-		return VStr{p.opaqueString()}
+		// EnumName(m map[int32]string, v int32): m[v] if present, else the decimal value
+		m, ok := a[0].(VMap)
+		v := tInt(a[1])
+		c, isC := v.ConstInt()
+		if !ok || m.Nil || !isC {
+			return VStr{p.opaqueString()}
+		}
+		for _, e := range m.Obj.V.(*VMapData).E {
+			if kc, ok := e.K.(VInt).T.ConstInt(); ok && kc.Cmp(c) == 0 {
+				return e.V
+			}
+		}
+		return VStr{StrC(c.String())}
 	}
 	_ = fmt.Sprint
 }
